@@ -213,6 +213,23 @@ def c10(sc, V):
         if s.kind() == "check" and s.before.slot is not None and not s.before.blocked and s.snap.slot != s.before.slot:
             f.append({"sig": "refused-request-changed-slot", "step": s.n,
                       "msg": "periodic check arrived while %s was in flight; afterwards the slot is %s" % (s.before.slot, s.snap.slot)})
+        # every code path that starts a worker belongs to one of the listed state-changing operations (start, restart, reload,
+        # incr, set, add, the periodic check, the daemon's own start).  A worker started by a *timer* step therefore means such
+        # an operation is still in progress; if the slot is free at that moment, a request arriving now would be accepted next
+        # to it — the operation is in flight without being serialized.  (The socket-triggered start of on-demand watchers runs
+        # detached by design: F28.)
+        if s.kind() == "wake" and s.before.slot is None and not s.before.blocked:
+            for l in s.lines:
+                if l[0] == "spawn":
+                    cfgw = next((c for c in sc["watchers"] if c["name"].replace(" ", "_") == l[2]), None)
+                    if cfgw is not None and cfgw.get("on_demand"):
+                        continue
+                    if any(c.get("on_demand") for c in sc["watchers"]) and any(x.kind() == "sockev" and x.op[1] for x in V[:s.n]):
+                        continue          # the detached start walks over every watcher in earlier versions of the tree
+                    f.append({"sig": "operation-in-progress-without-slot", "step": s.n,
+                              "msg": "a timer step started worker %d of %s while the exclusive slot was free: the operation that "
+                                     "does so is in flight unserialized" % (l[1], l[2])})
+                    break
     return f
 
 
@@ -811,12 +828,17 @@ def c09(sc, V):
     owner = {}
     pending_exit = {}      # pid -> expected exit_code for self exits / outside kills while active
     wait_status = {}       # pid -> wait status the daemon collected (kernel line `reap pid status`)
+    self_exit = {}         # pid -> (step, watcher) of a worker that exited by itself while its watcher reported active
     for s in V:
         if s.before.blocked:
             break
         if s.kind() == "die":
             st = s.op[2]
             pending_exit[s.op[1]] = -(st & 0x7F) if (st & 0x7F) else (st >> 8) & 0xFF
+            # "a worker that exits by itself … while its watcher is active yields a reap event": remembered until it shows
+            wown = next((w for w in s.before.watchers if any(p[0] == s.op[1] for p in w["procs"])), None)
+            if wown is not None and wown["status"] == "active" and s.before.kernel.get(s.op[1], ("g", 0))[0] == "r":
+                self_exit[s.op[1]] = (s.n, wown["name"])
         for l in s.lines:
             if l[0] == "spawn":
                 owner[l[1]] = l[2]
@@ -872,6 +894,13 @@ def c09(sc, V):
             if gone_unannounced:
                 f.append({"sig": "death-never-announced", "step": s.n,
                           "msg": "pids %r have a spawn event, no reap/kill event, and are not running" % sorted(gone_unannounced)})
+            # … also when the daemon had signalled the pid in between (a `kill` event is not the report of an exit)
+            lost = [p for p, (n0, wn) in self_exit.items() if p not in reap_ev and any(w["name"] == wn for w in a.watchers) and
+                    not any(l[0] == "ev" and l[2] == "remove" for x in V[n0:s.n + 1] for l in x.lines)]
+            if lost:
+                f.append({"sig": "self-exit-never-reported", "step": s.n,
+                          "msg": "workers %r exited by themselves while their watcher was active; no reap event has been "
+                                 "published for them and nothing is in flight" % sorted(lost)})
             unann = [p for p in live if p in reap_ev]
             if unann:
                 f.append({"sig": "live-but-reaped", "step": s.n, "msg": "%r" % unann})
